@@ -42,7 +42,7 @@ TARGETS = [
     ("S", "scheduler/scheduler.go", "Scheduler.Wait", "(*Scheduler).Wait", "scheduler"),
     ("S", "scheduler/scheduler.go", "Scheduler.Enqueue", "(*Scheduler).Enqueue", "scheduler"),
     ("S", "scheduler/scheduler.go", "Config.New", "New", "scheduler"),
-    ("S", "scheduler/scheduler.go", "Scheduler.idleWorkers", "idleWorkers", "scheduler"),
+    ("S", "scheduler/scheduler.go", "idleWorkers", "idleWorkers", "scheduler"),
     ("S", "emitter_stack.go", "EmitterStack", "EmitterStack", "."),
     ("S", "scheduler/scheduler.go", "Scheduler.run", "(*Scheduler).run", "scheduler"),
 ]
@@ -61,7 +61,7 @@ def main():
     scratch = os.path.join(os.environ.get("VERIF_SCRATCH", "/var/tmp"), "verif-cmut")
     shutil.rmtree(scratch, ignore_errors=True)
     os.makedirs(scratch)
-    subprocess.check_call("git -C /repo archive HEAD | tar -x -C %s" % scratch, shell=True)
+    subprocess.check_call("git -C %s archive HEAD | tar -x -C %s" % (os.environ.get("VERIF_SELFTEST_SRC", "/repo"), scratch), shell=True)
     outp = os.path.join(V, "selftest", "contract_mutation.json")
     res = json.load(open(outp)) if os.path.exists(outp) else {}
     cffvc, cffmut = os.path.join(V, "bin", "cffvc"), os.path.join(V, "bin", "cffmut")
